@@ -2,7 +2,7 @@
     output line (L1), origin of the entries (L2, L3), the offset -> line translation (L4) and its
     two boundary defects (L5).  Specification: Model/LineMapSpec.v. *)
 From Coq Require Import String Ascii List Bool Arith NArith Lia Sorted.
-From CC Require Import Base.Str Model.Cpp Model.LineMapSpec.
+From CC Require Import Base.Str Model.Cpp Model.LineMapSpec Model.ScanSpec.
 Import ListNotations.
 
 Open Scope list_scope.
@@ -357,9 +357,10 @@ Proof.
   cbn [nlfree]. rewrite nlfree_app, nlfree_string_of_N. reflexivity.
 Qed.
 
-Lemma scan_loop_one_line (f : nat) (asm : bool) :
+(** whichever way the scan ends ([ScanOk], or [ScanUnterminated] with the text before the quote) *)
+Lemma scan_loop_one_line_parts (f : nat) (asm : bool) :
   forall remaining out ins st out' ins' st',
-    scan_loop f asm remaining out ins st = ScanOk out' ins' st' ->
+    scan_parts (scan_loop f asm remaining out ins st) = (out', ins', st') ->
     one_line (out ++ remaining) = true -> one_line out' = true.
 Proof.
   induction f; intros remaining out ins st out' ins' st' H Hinv; cbn [scan_loop] in H.
@@ -383,20 +384,27 @@ Proof.
     assert (Hpre : one_line (out ++ pre) = true).
     { rewrite Hx, <- app_assoc_s in Hinv. eapply one_line_app_l; exact Hinv. }
     clear Heqpre Erem.
+    (* an unterminated literal: the text before the quote is a prefix of [pre] *)
+    assert (Hunt : forall s2 y lft z, pre = s2 ++ y -> split_once """" s2 = Some (lft, z) ->
+                                      one_line (out ++ lft) = true).
+    { intros s2 y lft z Hs2 E3. apply split_once_spec in E3. subst s2. subst pre.
+      rewrite !app_assoc_s, <- app_assoc_s in Hpre. eapply one_line_app_l; exact Hpre. }
     destruct (split_once "/*" pre) as [[s2 t]|] eqn:E2.
     + (* a comment opens *)
-      apply split_once_spec in E2. subst pre.
+      apply split_once_spec in E2.
       (* the scanner goes on in the whole remaining line after the "/*" *)
       assert (Hplain : one_line ((out ++ s2) ++ string_drop (String.length s2 + 2) remaining) = true).
-      { assert (Hr : remaining = s2 ++ "/*" ++ t ++ x) by (rewrite Hx, !app_assoc_s; reflexivity).
+      { subst pre.
+        assert (Hr : remaining = s2 ++ "/*" ++ t ++ x) by (rewrite Hx, !app_assoc_s; reflexivity).
         rewrite Hr, drop_open_app.
         apply (one_line_drop_mid (out ++ s2) "/*" (t ++ x)).
         rewrite app_assoc_s, <- Hr. exact Hinv. }
       destruct (negb (starts_with "#include" s2) && negb asm).
       * destruct (split_once """" s2) as [[lft z]|] eqn:E3.
-        -- destruct (find_close _ _ _) as [[body rest]|] eqn:Efc in H; [|discriminate].
+        -- destruct (find_close _ _ _) as [[body rest]|] eqn:Efc in H.
+           2:{ pose proof (Hunt _ _ _ _ E2 E3) as Hu. inversion H; subst. exact Hu. }
            eapply IHf; [exact H|].
-           apply split_once_spec in E3. subst s2.
+           apply split_once_spec in E3. subst s2. subst pre.
            eapply (literal_step remaining lft _ out body rest); [|exact Efc|exact Hinv|apply nlfree_marker].
            rewrite Hx. rewrite !app_assoc_s. reflexivity.
         -- eapply IHf; eauto.
@@ -404,7 +412,9 @@ Proof.
     + (* no comment *)
       destruct (negb (starts_with "#include" pre) && negb asm).
       * destruct (split_once """" pre) as [[lft z]|] eqn:E3.
-        -- destruct (find_close _ _ _) as [[body rest]|] eqn:Efc in H; [|discriminate].
+        -- destruct (find_close _ _ _) as [[body rest]|] eqn:Efc in H.
+           2:{ pose proof (Hunt pre "" _ _ (eq_sym (app_empty_r pre)) E3) as Hu.
+               inversion H; subst. exact Hu. }
            eapply IHf; [exact H|].
            apply split_once_spec in E3. subst pre.
            eapply (literal_step remaining lft _ out body rest); [|exact Efc|exact Hinv|apply nlfree_marker].
@@ -413,10 +423,24 @@ Proof.
       * inversion H; subst. exact Hpre.
 Qed.
 
+Lemma scan_loop_one_line (f : nat) (asm : bool) :
+  forall remaining out ins st out' ins' st',
+    scan_loop f asm remaining out ins st = ScanOk out' ins' st' ->
+    one_line (out ++ remaining) = true -> one_line out' = true.
+Proof.
+  intros remaining out ins st out' ins' st' H. eapply scan_loop_one_line_parts. rewrite H. reflexivity.
+Qed.
+
+Lemma scan_line_one_line_parts (asm : bool) (line : string) (st : scan_state) out ins st' :
+  scan_parts (scan_line asm line st) = (out, ins, st') -> one_line line = true -> one_line out = true.
+Proof.
+  unfold scan_line. intros H Hl. eapply scan_loop_one_line_parts; [exact H|]. exact Hl.
+Qed.
+
 Lemma scan_line_one_line (asm : bool) (line : string) (st : scan_state) out ins st' :
   scan_line asm line st = ScanOk out ins st' -> one_line line = true -> one_line out = true.
 Proof.
-  unfold scan_line. intros H Hl. eapply scan_loop_one_line; [exact H|]. exact Hl.
+  intros H. eapply scan_line_one_line_parts. rewrite H. reflexivity.
 Qed.
 
 Open Scope list_scope.
@@ -862,15 +886,22 @@ Ltac quiet_same H :=
 Lemma line_step_cases rec fs fname inc asm p line buf p' :
   line_step rec fs fname inc asm p line buf = POk p' ->
   exists out ins sc,
-    scan_line asm buf (c_scan (p_ctx p)) = ScanOk out ins sc /\
+    scan_parts (scan_line asm buf (c_scan (p_ctx p))) = (out, ins, sc) /\
     (quiet_step (c_macros (p_ctx p)) out p p' \/
      p' = emit (set_scan p sc) (fname, line, inc) (emit_text (c_macros (p_ctx p)) out buf inc) \/
      include_step rec fs (c_macros (p_ctx p)) out (set_scan p sc) (fname, line, inc) p').
 Proof.
   intros H. unfold line_step in H.
-  destruct (scan_line asm buf (c_scan (p_ctx p))) as [out ins sc|] eqn:Escan; [|discriminate].
-  exists out, ins, sc. split; [reflexivity|].
-  cbv zeta in H. unfold err in H.
+  assert (Hbody : exists out ins sc,
+             scan_parts (scan_line asm buf (c_scan (p_ctx p))) = (out, ins, sc) /\
+             line_body rec fs fname inc p line buf out ins sc = POk p').
+  { destruct (scan_line asm buf (c_scan (p_ctx p))) as [out ins sc|out ins sc] eqn:Escan.
+    - exists out, ins, sc. split; [reflexivity|exact H].
+    - destruct (cstate_eqb (p_state p) Active); [discriminate|].
+      exists out, ins, sc. split; [reflexivity|exact H]. }
+  clear H. destruct Hbody as [out [ins [sc [Escan H]]]].
+  exists out, ins, sc. split; [exact Escan|].
+  unfold line_body in H. cbv zeta in H. unfold err in H.
   destruct ins; cbn [negb] in H.
   2:{ quiet_same H. }
   change (c_macros (p_ctx (set_scan p sc))) with (c_macros (p_ctx p)) in H.
@@ -915,10 +946,10 @@ Proof.
     split; [rewrite Edp; reflexivity|]. split; [assumption|]. split; [assumption|].
     split; [exact Erec|reflexivity]. }
   destruct (String.eqb name "#if").
-  { destruct arg; [|discriminate]. destruct (cstate_eqb (p_state p) Active); [|quiet_same H].
+  { destruct (cstate_eqb (p_state p) Active); [|quiet_same H]. destruct arg; [|discriminate].
     destruct (evaluate s); [|discriminate]. quiet_same H. }
   destruct (String.eqb name "#elif").
-  { destruct arg; [|discriminate]. destruct (cstate_eqb (p_state p) Inactive); [|quiet_same H].
+  { destruct (cstate_eqb (p_state p) Inactive); [|quiet_same H]. destruct arg; [|discriminate].
     destruct (evaluate s); [|discriminate]. quiet_same H. }
   destruct (String.eqb name "#else").
   { destruct arg; [discriminate|]. quiet_same H. }
@@ -926,7 +957,7 @@ Proof.
   { destruct arg; [discriminate|]. destruct (p_stack (set_scan p sc)); [discriminate|]. quiet_same H. }
   destruct (String.eqb name "#error").
   { destruct (cstate_eqb (p_state p) Active); [|quiet_same H]. destruct arg; discriminate. }
-  discriminate.
+  destruct (cstate_eqb (p_state p) Active); [discriminate|quiet_same H].
 Qed.
 
 Open Scope list_scope.
@@ -1059,7 +1090,7 @@ Lemma line_step_L1 rec fs fname inc asm p line buf p' :
 Proof.
   intros Hrec HS Hbuf H.
   apply line_step_cases in H. destruct H as [out [ins [sc [Hscan H]]]].
-  pose proof (scan_line_one_line _ _ _ _ _ _ Hscan Hbuf) as Hout.
+  pose proof (scan_line_one_line_parts _ _ _ _ _ _ Hscan Hbuf) as Hout.
   pose proof HS as [Hms [Hc Hl]].
   destruct H as [Hq|[He|Hi]].
   - assert (HS' : Sinv p').
@@ -1664,7 +1695,7 @@ Theorem entry_of_spliced_line_emitted : forall rec fs fname inc asm p line buf p
   p_map p' = (fname, line, inc) :: p_map p.
 Proof.
   intros. apply line_step_cases in Hstep. destruct Hstep as [out' [ins' [sc' [Hscan' H]]]].
-  rewrite Hscan in Hscan'. inversion Hscan'; subst out' ins' sc'.
+  rewrite Hscan in Hscan'. cbn [scan_parts] in Hscan'. inversion Hscan'; subst out' ins' sc'.
   destruct H as [Hq|[He|Hi]].
   - destruct Hq as [_ [Hq _]]. contradiction.
   - subst p'. reflexivity.
